@@ -216,6 +216,18 @@ def one_c10(spec, batch, stats, cap):
         if not r[2]:
             return
         evs = [{"e": "impl_set", "decider": "grow", "d": d, "programs": r[0], "errors": r[1], "phase": "before", "complete": True}]
+        # ONE representation (and decider) object that goes through the same failing / backtracking operations and is then
+        # asked for everything it can create: what an operation learnt in one context may not narrow the next operation
+        proxy = _Proxy()
+        rep1 = TreeBasedRepresentation(g, MaxDepthDecider(proxy, g, d))
+        for seed in range(25):
+            proxy.inner = NativeRandomSource(1000 + seed)
+            try:
+                t = rep1.create_genotype(proxy)
+                rep1.mutate(proxy, t)
+                rep1.crossover(proxy, t, t)
+            except Exception:
+                pass
         for seed in range(25):
             rs = NativeRandomSource(seed)
             for dd in (mind - 1, mind, mind + 2):
@@ -230,6 +242,9 @@ def one_c10(spec, batch, stats, cap):
         if not r2[2]:
             r2 = ([], ["enumeration-exceeded-cap"], True)
         evs.append({"e": "impl_set", "decider": "grow", "d": d, "programs": r2[0], "errors": r2[1], "phase": "after", "complete": True})
+        r3 = enumerate_with(rep1, proxy, cap * 4)
+        if r3[1]:
+            evs.append({"e": "impl_set", "decider": "grow", "d": d, "programs": r3[0], "errors": r2[1], "phase": "after", "complete": True})
         batch.trace("c10/" + spec["id"], evs, {"k": "c04", "g": decl})
         stats["events"] += 2
         stats["programs"] += len(r[0]) + len(r2[0])
